@@ -45,6 +45,52 @@ const probeType = int32(9020)
 
 var probeFn func(tag string, adb *account.AccountDB)
 
+var mainCast uint64
+
+// activate sets the chain configuration for everything that follows: a sub chain is a node started with a
+// genesis.json (common.Genesis != nil = common.IsSub()); on a sub chain the native balance lives in another slot
+// position of the token contract, so a world keeps its configuration for its whole life.
+func activate(sub bool) {
+	if sub {
+		common.Genesis = &common.GenesisConf{Name: "verif-sub", ChainId: "9527", Cast: mainCast}
+	} else {
+		common.Genesis = nil
+	}
+}
+
+// putGroup stores a group in the group chain stub the sub-chain after() phase reads
+var putGroup func(g *types.Group)
+
+// ---- configuration switches on the execution path ----
+// switchFns: the zero-argument switches of package common (version.go); switchCover[family][name] = values seen
+var switchFns = map[string]func() bool{
+	"IsSub": common.IsSub, "IsMainnet": common.IsMainnet, "IsRobin": common.IsRobin, "IsDEV": common.IsDEV,
+	"IsProposal002": common.IsProposal002, "IsProposal003": common.IsProposal003, "IsProposal004": common.IsProposal004,
+	"IsProposal005": common.IsProposal005, "IsProposal006": common.IsProposal006, "IsProposal007": common.IsProposal007,
+	"IsProposal008": common.IsProposal008, "IsProposal009": common.IsProposal009, "IsProposal012": common.IsProposal012,
+	"IsProposal013": common.IsProposal013, "IsProposal015": common.IsProposal015, "IsProposal016": common.IsProposal016,
+	"IsProposal017": common.IsProposal017, "IsProposal018": common.IsProposal018, "IsProposal020": common.IsProposal020,
+	"IsProposal021": common.IsProposal021, "IsProposal023": common.IsProposal023, "IsProposal026": common.IsProposal026,
+	"IsProposal027": common.IsProposal027,
+}
+var switchCover = map[string]map[string]map[bool]int{}
+
+func switchSeen(sub bool) {
+	fam := "main-chain worlds"
+	if sub {
+		fam = "sub-chain worlds"
+	}
+	if switchCover[fam] == nil {
+		switchCover[fam] = map[string]map[bool]int{}
+	}
+	for n, f := range switchFns {
+		if switchCover[fam][n] == nil {
+			switchCover[fam][n] = map[bool]int{}
+		}
+		switchCover[fam][n][f()]++
+	}
+}
+
 // tokenContract is the address the native balance is bound to (storage slots keccak(addr.3)).
 var tokenContract = common.HexToAddress("0x71d9cfd1b7adb1e8eb4c193ce6ffbe19b4aee0db")
 
@@ -59,6 +105,11 @@ func boot(height uint64) {
 	vm.InitVM()
 	executor.InitExecutors()
 	core.VerifC06InitLoggers()
+	mainCast = common.GetCastingInterval()
+	common.GetRewardBlocks()
+	common.GetRefundBlocks()
+	common.GetBlocksPerEpoch()
+	putGroup = core.VerifC20InstallGroupStore()
 	executor.VerifC20RegisterProbe(probeType, func(tx *types.Transaction, _ *types.BlockHeader, adb *account.AccountDB) {
 		if probeFn != nil {
 			probeFn(tx.Data, adb)
@@ -71,6 +122,7 @@ type nodeWorld struct {
 	TDB  account.AccountDatabase
 	ADB  *account.AccountDB
 	Root common.Hash
+	Sub  bool // sub-chain configuration
 }
 
 func newNodeWorld() *nodeWorld {
@@ -163,6 +215,8 @@ func newTx(typ int32, src, data string) *types.Transaction {
 // IntermediateRoot. After every transaction a probe transaction hands the running AccountDB to probe(i, adb).
 func runBlock(w *nodeWorld, h uint64, castor, groupId []byte, txs []*types.Transaction, probe func(i int, adb *account.AccountDB)) []*types.Receipt {
 	common.SetBlockHeight(h)
+	activate(w.Sub)
+	switchSeen(w.Sub)
 	hd := header(h)
 	hd.Castor = castor
 	hd.GroupId = groupId
